@@ -177,7 +177,8 @@ def run(ctx, canary=False):
             info = {"cliques": cliques, "sizes": sz, "total": total, "potential_on_separator": on_sep}
             ctx.case(("gbp", tuple(cliques), total, on_sep), nontrivial=True)
             try:
-                rg = RegionGraph(dom, cliques, total=total, convex=False, iters=200)
+                # (the damping argument is part of the oracle's interface; exactness on these structures must hold for any value)
+                rg = RegionGraph(dom, cliques, total=total, convex=False, iters=200, damping=rng.choice([0.5, 0.5, 0.02, 0.0, 0.9]))
                 pv = potentials_cv(rg, dom, pots)
                 tabs = list(pots)
                 if on_sep:
